@@ -16,6 +16,7 @@ import (
 	"filippo.io/age/xverif/internal/eval"
 	"filippo.io/age/xverif/internal/vk"
 	"filippo.io/age/xverif/internal/world"
+	"filippo.io/age/xverif/props/ageflow"
 	"filippo.io/age/xverif/props/c05"
 )
 
@@ -183,6 +184,7 @@ func judge(run *vk.Run, w *world.World, file []byte, ids []string, newFile bool,
 // Run is the C03 check.
 func Run(tier string) {
 	run := vk.NewRun("C03", tier, "model_checking")
+	rec := ageflow.Start(run.Pick(30000, 150000)) // every Encrypt/Decrypt below is also replayed through AgeFlow.tla
 	run.Rule("TLC (AgeCore.tla, mode tamper) enumerates, for every recipient list in bound, every structural edit of the header (per-stanza substitutions of type/arguments/body/wrapped key/addressee, insertion of grease and attacker-made stanzas at every position, deletion, duplication at every position, all permutations) x MAC choice (kept, random, recomputed under the attacker's file key) x identity list, checks HeaderBound/NewFileOnly on the symbolic model and emits the expected outcome; each edit is applied to a real header (parsed, edited, re-marshalled, MAC recomputed through the format term) and decrypted with the listed identities. Byte level: every single-bit flip of the header bytes of 1-3 recipient files and every inserted-byte/line-ending variant, decrypted with every identity that opens the original. Distinct = (recipient list, edit, MAC, identities).")
 	run.Assume("perfect cryptography in the symbolic model; an attacker-made stanza wraps the attacker's own file key (it cannot know the file's)")
 	keys := []string{"x1", "x2", "e1", "r1"}
@@ -260,6 +262,8 @@ func Run(tier string) {
 	c := cases[len(cases)/2]
 	run.Sample(map[string]interface{}{"rs": coregen.RecipSig(c.Rs), "ids": c.Ids, "edit": c.Edit, "model_result": c.Res})
 	byteLevel(run, w, pt)
+	ageflow.Validate(run, "own-cases", rec.Stop())
+	ageflow.RepoSuite(run)
 	run.Finish()
 }
 
